@@ -331,7 +331,34 @@ def linked_collapse(ctx, rule='A5l'):
            '; '.join(norm(t.test) for t in tests))
 
 
+def size_products(ctx, rule='A22'):
+    """Declared design-space sizes are products of option counts that exceed 64 bits for quite ordinary graphs (64 binary
+    choices): every such product in the analyzers, the processor and the encoders is taken in floating point (the code
+    base's convention, 9 sites) - never with a fixed-width integer dtype, which wraps silently (to 0 for a multiple of
+    2**64, read as "no feasible design")."""
+    n = 0
+    for fn in ctx.prog.all_functions():
+        if not fn.module.name.startswith('adsg_core.optimization'):
+            continue
+        for c in calls(fn, 'prod'):
+            if not (isinstance(c.func, ast.Attribute) and norm(c.func.value) in ('np', 'numpy')) or not c.args:
+                continue
+            if not any(w in norm(c.args[0]) for w in ('n_opts', 'options')):
+                continue
+            dt = kwarg(c, 'dtype')
+            n += 1
+            ctx.touch(fn)
+            bad = dt is not None and norm(dt) in ('int', 'np.int64', 'np.int32', 'np.int_', 'np.uint64', 'np.intp')
+            ctx.ob(rule, fkey(fn, rule, f'size-product-not-fixed-width:{short(c.args[0], 30)}'), not bad,
+                   f'{fn.module.relpath}:{c.lineno}',
+                   'a product of option counts is not taken in a fixed-width integer type (it wraps for large design '
+                   'spaces)', short(c, 80))
+    return n
+
+
 def check(ctx):
+    size_products(ctx)
+    ctx.floor('A22', 5, 'design-space size products')
     fast_cls = ctx.prog.cls(FAST)
     fns = [f for f in ctx.prog.all_functions() if f.module.name in (
         'adsg_core.optimization.hierarchy.fast', 'adsg_core.optimization.hierarchy.base')]
